@@ -15,11 +15,11 @@ import (
 	"time"
 )
 
-var graceS = 2
+var graceS = 4
 var phase1TimeoutMs = 3000
 
 // oblSlots bounds the number of obligations whose scripts are materialised at once (memory).
-var oblSlots = make(chan struct{}, 8)
+var oblSlots = make(chan struct{}, 5)
 
 const ufDecls = `
 (declare-fun bit_and (Int Int) Int)
@@ -34,8 +34,10 @@ const ufDecls = `
 (declare-fun closure_fn (Int) Int)
 (declare-fun closure_bind (Int Int) Int)
 (declare-fun iface_str (Int) Str)
+(declare-fun iface_slice (Int) Slice)
 (declare-fun fnref (Int) Int)
 (declare-fun err_is_range (Int) Bool)
+(assert (not (err_is_range 0)))
 (assert (forall ((k Int)) (! (< (fnref k) 0) :pattern ((fnref k)))))
 (assert (forall ((a Str) (b Str)) (! (not (and (strlt a b) (strlt b a))) :pattern ((strlt a b) (strlt b a)))))
 (assert (forall ((a Str)) (! (not (strlt a a)) :pattern ((strlt a a)))))
@@ -78,6 +80,7 @@ type solverSpec struct {
 var solvers = []solverSpec{
 	{"z3-new", func(f string, t int) []string { return []string{"z3-new", fmt.Sprintf("-T:%d", t), f} }, z3Opts},
 	{"z3", func(f string, t int) []string { return []string{"z3", fmt.Sprintf("-T:%d", t), f} }, z3Opts},
+	{"z3-new-mbqi", func(f string, t int) []string { return []string{"z3-new", fmt.Sprintf("-T:%d", t), f} }, ""},
 	{"cvc5", func(f string, t int) []string {
 		return []string{"cvc5", "--lang=smt2", fmt.Sprintf("--tlimit=%d", t*1000), f}
 	}, "(set-logic ALL)\n"},
@@ -248,9 +251,7 @@ func (w *World) Discharge(fc *FnCtx, header string, scratch string, timeoutS int
 				file := fmt.Sprintf("%s.%d.%s.smt2", base, idx, sp.name)
 				_ = os.WriteFile(file, []byte(sp.opts+body.String()), 0o644)
 				go func() {
-					jobs <- struct{}{}
 					st, out, dt := runSolver(ctx, sp, file, timeoutS)
-					<-jobs
 					ch <- ans{st, out, sp.name, dt}
 				}()
 			}
@@ -272,7 +273,7 @@ func (w *World) Discharge(fc *FnCtx, header string, scratch string, timeoutS int
 					} else if best.solver == "" {
 						best = a
 					}
-					if got == len(solvers)-1 && grace == nil {
+					if got >= 2 && grace == nil {
 						// two solvers gave up: the last one gets a short grace period only
 						grace = time.After(time.Duration(graceS) * time.Second)
 					}
